@@ -8,13 +8,13 @@ for f in sorted(glob.glob(os.path.join(HOME, "seeded", "*", "meta.json"))):
     sid = os.path.basename(os.path.dirname(f))
     res = m.get("checks_run_against_it", {})
     rows.append((sid, m.get("property", "?"), (m.get("summary") or "")[:260].replace("\n", " ").replace("|", "/"), (m.get("needs") or "")[:260].replace("\n", " ").replace("|", "/"),
-                 "; ".join(f"{k}: {v}" for k, v in res.items()).replace("\n", " ").replace("|", "/")))
+                 "; ".join(f"{k}: {v}" for k, v in res.items()).replace("\n", " ").replace("|", "/"), (m.get("history") or "caught as built").replace("\n", " ").replace("|", "/")))
 with open(os.path.join(HOME, "seeded", "RESULTS.md"), "w") as out:
     out.write("# Seeded changes written by independent sub-agents (one property text + a scratch worktree each)\n\n"
               "Every change below was confirmed here with tools/verify_seeded.py (fresh worktree of /repo HEAD: patch applies, suite keeps 425 passes + the 4 known failures, "
               "demo exits non-zero with the change and 0 without) and then the listed quick checks were run against it (tools/sensitivity.py --patch). "
               "'MISSED at first' entries say what was added to the machinery; the final state is the last word of each cell.\n\n"
-              "| id | property | what the change does | what it needs to manifest | checks run against it |\n|---|---|---|---|---|\n")
+              "| id | property | what the change does | what it needs to manifest | checks run against it (final machinery) | history |\n|---|---|---|---|---|---|\n")
     for r in rows:
         out.write("| " + " | ".join(r) + " |\n")
 print(len(rows), "seeded changes")
